@@ -1,8 +1,8 @@
 #!/verif/.venv/bin/python
 # Replay of a solver counterexample against the unmodified code (no shims).
-# property=C19 kernel=wmap label=k3:register_map_gives_each_qubit_its_weight
+# property=C19 kernel=define label=k2:register_with_permuted_trap_ids_is_refused
 import sys
 sys.path[:0] = ['/repo' + "/pulser-core", '/repo' + "/pulser-simulation", "/verif"]
 from symx.replay import replay
-sys.exit(replay(check='checks.c19', kernel='wmap', shape={'n': 2, 'perm': [1, 0]},
-                assignment={'p0_0': -14, 'p0_1': -499725103, 'p1_0': -20, 'p1_1': -499745114, 'w0': '0/1', 'w1': '1/1024', 'far_0': 1000000000, 'far_1': 1000007378}, label='k3:register_map_gives_each_qubit_its_weight'))
+sys.exit(replay(check='checks.c19', kernel='define', shape={'n': 2, 'dims': 2, 'ids': [1, 0]},
+                assignment={'p0_0': 20, 'p0_1': -500000000, 'p1_0': -5, 'p1_1': -500000000}, label='k2:register_with_permuted_trap_ids_is_refused'))
